@@ -957,6 +957,51 @@ var c20URLParts = c20Grammar("URL", "url", func(s *z.StringSchema[string], not b
 		pick("query", "", "?", "?q=1") + pick("fragment", "", "#", "#f", "#/f")
 })
 
+// Match(rx) decides what rx decides: for regexps built by every constructor and with every flag that changes
+// what the SAME pattern text means (POSIX syntax, leftmost-longest, multi-line, case folding, ungreedy), the
+// schema's verdict is rx.MatchString(subject), on subjects that contain line breaks.
+func c20RegexpFlavours(x *mc.X) *mc.Outcome {
+	zh.Reset()
+	zh.Install(x, zh.PoolLIFO, zh.OrderSorted)
+	longest := regexp.MustCompile("^(a|ab)(c|bcd)?$")
+	longest.Longest()
+	rxs := []struct {
+		name string
+		rx   *regexp.Regexp
+	}{
+		{"MustCompilePOSIX(^[a-z]+$)", regexp.MustCompilePOSIX("^[a-z]+$")},
+		{"MustCompilePOSIX(^a[^b]c$)", regexp.MustCompilePOSIX("^a[^b]c$")},
+		{"MustCompilePOSIX(^(a|ab)(c|bcd)?$)", regexp.MustCompilePOSIX("^(a|ab)(c|bcd)?$")},
+		{"MustCompile(^[a-z]+$)", regexp.MustCompile("^[a-z]+$")},
+		{"MustCompile((?m)^a$)", regexp.MustCompile("(?m)^a$")},
+		{"MustCompile((?s)^a.c$)", regexp.MustCompile("(?s)^a.c$")},
+		{"MustCompile((?i)^AZ$)", regexp.MustCompile("(?i)^AZ$")},
+		{"MustCompile(^(a|ab)(c|bcd)?$).Longest()", longest},
+	}
+	r := rxs[x.Choose(len(rxs), "regexp")]
+	not := x.Bool("not")
+	mode := x.Choose(2, "mode")
+	subj := chooseString(x, []string{"a", "b", "c", "d", "z", "A", "\n"}, 4, "sym")
+	s := z.String().Match(r.rx)
+	name, code, want := "Match("+r.name+")", "match", r.rx.MatchString(subj)
+	if not {
+		s = z.String().Not().Match(r.rx)
+		name, code, want = "Not()."+name, "not_match", !want
+	}
+	var issues z.ZogIssueList
+	var skipped bool
+	var dest string
+	if mode == 0 {
+		skipped = parseAbsent(subj)
+		issues = s.Parse(subj, &dest)
+	} else {
+		dest = subj
+		skipped = subj == ""
+		issues = s.Validate(&dest)
+	}
+	return c20Check(name, []string{"Parse", "Validate"}[mode], fmt.Sprintf("%q", subj), skipped, want, code, issues, dest)
+}
+
 // reKey runs a scenario of another property's family and files its violations under prop.
 func reKey(prop, from string, run mc.Scenario) mc.Scenario {
 	return func(x *mc.X) *mc.Outcome {
@@ -1095,6 +1140,7 @@ func init() {
 				return s.URL()
 			}, refURL, func(x *mc.X) string { return chooseString(x, urlAlpha, gLen, "sym") })})
 			items = append(items, Item{Name: "grammar/URLParts", MaxDevs: -1, Run: c20URLParts})
+			items = append(items, Item{Name: "match/regexp-flavours", MaxDevs: -1, Run: c20RegexpFlavours})
 			items = append(items, Item{Name: "grammar/UUID", MaxDevs: -1, Run: c20Grammar("UUID", "uuid", func(s *z.StringSchema[string], not bool) *z.StringSchema[string] {
 				if not {
 					return s.Not().UUID()
